@@ -146,8 +146,16 @@ def generate(alg_name, struct_name, two_block, hermitian_input):
             body = part_expr(s, part, two_block, "u.Sy")
             lines.append(f"  eq_{sm}_{part} : P Part.{part} {sm} = P Part.{part} ({start_wrap(s, body, inputs)})")
     fields = [tuple(x.strip() for x in ln.strip().split(" : ", 1)) for ln in lines[nhead:]]
+    triv = {}
+    for h in inputs:
+        triv[mangle(h)] = "q"
+    for s_ in alg.series:
+        st = s_.start
+        triv[mangle(s_.name)] = "1" if st == 1 else ("q" if isinstance(st, str) and st.endswith("_0") else "0")
+    for p in alg.products:
+        triv[mangle(p.name)] = "0"
     return "\n".join(lines) + "\n", {"inputs": inputs, "computed": computed, "products": [p.name for p in alg.products], "outputs": alg.outputs,
-                                     "data_fields": names, "prop_fields": fields}
+                                     "data_fields": names, "prop_fields": fields, "triv": triv}
 
 
 def to_main(gen, tb):
@@ -174,6 +182,14 @@ def to_main(gen, tb):
     return "\n".join(out) + "\n"
 
 
+INST_HEADER = """/- GENERATED by leanalg/genlean.py on every run: do not edit.  Vacuity guard for the generated structures. -/
+import PV.Instance
+
+namespace PV.Inst
+open Filtered Blocks
+
+"""
+
 HEADER = """/- GENERATED by leanalg/genlean.py from pymablock/algorithms.py on every run: do not edit. -/
 import PV.Setting
 
@@ -193,7 +209,25 @@ def write_all(outdir):
         text += t + "\n"
         meta[struct] = m
     text += to_main(meta["MainEqs"], meta["MainEqs2b"]) + "\n"
+    inst = INST_HEADER
+    for struct, m in meta.items():
+        inst += f"/-- the degenerate solution (no perturbation): consistency of the equations of `{struct}` -/\n"
+        inst += f"noncomputable def triv{struct} (q : ℚ) : {struct} ℚ (unperturbed q) where\n"
+        for n in m["data_fields"]:
+            inst += f"  {n} := {m['triv'][n]}\n"
+        for f, _t in m["prop_fields"]:
+            if f.startswith("hprod_"):
+                inst += f"  {f} := by intro n _; simp\n"
+            else:
+                inst += f"  {f} := by simp [unperturbed, Blocks.P, Blocks.tl]\n"
+        inst += "\n"
+    inst += "end PV.Inst\n"
+    ipath = os.path.join(outdir, "GeneratedInst.lean")
+    if (open(ipath).read() if os.path.exists(ipath) else None) != inst:
+        with open(ipath, "w") as f:
+            f.write(inst)
     for m in meta.values():
+        m.pop("triv", None)
         m.pop("prop_fields", None)
         m.pop("data_fields", None)
     text += "end PV\n"
